@@ -33,6 +33,20 @@ CLAIMS = {
           "(R4) HashWriterWrapper.write checks the stream position before writing and updates hash/position only after it. Does NOT decide the behaviour of real calls under injected faults nor that a rerun succeeds."),
     note="Fault model: one call raises OSError/OperationalError; PermissionError (Windows locking) handlers only checked by R3; stale lock files / sandbox litter tolerated by the property.",
     technique="static typestate analysis on exception-edge CFGs + error-discipline table over all except clauses", ref="5/C17"),
+ 'C09': dict(
+    text=("Decides the structural clauses of deduplication: (R1) ObjectWriter: the loose destination is a function of the key only; on every return path an existing copy was verified (checksum equal / vanished) or replaced, an absent destination was published; "
+          "(R2) pack_all_loose removes already-indexed keys (both lookup strategies) before any pack write; (R3) append-handle typestate for every flag combination: after seek() on an 'ab' pack handle no tell()/write() before truncate(); "
+          "(R4) direct-to-pack loop: exactly one returned key per stream, known content never staged, new keys staged and remembered, and the known-keys set is accumulated over all index pages; (R5) unique hashkey column, INSERT OR IGNORE, final truncate inside the lock; "
+          "(R6) import with different hash algorithms runs every add call with no_holes and read-twice. Does NOT decide object counts as values over histories."),
+    note="Trusted: O_APPEND semantics, SQLite unique index.",
+    technique="static typestate (append handle, decision tree, per-iteration bookkeeping) + dominance + constant propagation", ref="5/C09"),
+ 'C13': dict(
+    text=("Decides: (R1) closed-world ownership: pack files are opened for writing only by lock_pack in mode 'ab' and written only through that handle; (R4) only repack_pack unlinks/links pack files; "
+          "(R2) in both write loops the target pack is re-selected before every object, with a known size that is a tell() not invalidated by a later write/seek/truncate, compared with the locked id (different => re-lock), and the locked id comes from the selector; "
+          "(R2s) the selector starts at the cached id or 0, advances by exactly 1 and stops at the first missing or strictly-below-target pack; (R3) seek only to a tell() of the same iteration, truncate() without size. "
+          "Does NOT decide byte-for-byte immutability over histories as values."),
+    note="Trusted: O_APPEND never overwrites; exclusive lock file = one packer.",
+    technique="kind-resolved ownership scan + per-iteration typestate on ICFGs + structural checks of the selector", ref="5/C13"),
 }
 
 PENDING_REASON = "check not built yet in this session (work in progress; DESIGN.md section 5 describes the planned static rules)"
